@@ -34,10 +34,51 @@ const SCALARS: [u32; 16] = [
 
 /// UTF-8 string of exactly `len` octets (len >= 0), mixing 1-4 octet scalars.
 pub fn utf8_exact(r: &mut Rng, len: usize) -> String {
+    if len >= 2 && !super::dict::get().strs.is_empty() && (if r.dict_heavy() { r.chance(1, 3) } else { r.chance(1, 24) }) {
+        if let Some(t) = utf8_with_literal(r, len) {
+            return t;
+        }
+    }
     if len > 0 && r.chance(1, 8) {
         return utf8_edgy(r, len);
     }
     utf8_plain(r, len)
+}
+
+/// Text of exactly `len` octets around a string literal of the source under test (G-dict), in one
+/// of the shapes that defeat a single-pass search-and-replace or a prefix/suffix test: the literal
+/// itself, doubled, overlapping with itself (its first character once more in front, its last
+/// once more behind), at the start, at the end or inside.
+fn utf8_with_literal(r: &mut Rng, len: usize) -> Option<String> {
+    let d = super::dict::get();
+    let raw: &Vec<u8> = r.pick(&d.strs[..]);
+    let lit = std::str::from_utf8(raw).ok()?.to_string();
+    if lit.is_empty() {
+        return None;
+    }
+    let first: String = lit.chars().take(1).collect();
+    let last: String = lit.chars().rev().take(1).collect();
+    let core = match r.below(6) {
+        0 => lit.clone(),
+        1 => format!("{}{}", lit, lit),
+        2 => format!("{}{}", first, lit),
+        3 => format!("{}{}", lit, last),
+        4 => format!("{}{}{}", first, first, lit),
+        _ => format!("{}{}{}", lit, first, lit),
+    };
+    if core.len() > len {
+        return None;
+    }
+    let slack = len - core.len();
+    let before = match r.below(3) {
+        0 => 0,
+        1 => slack,
+        _ => r.below(slack as u64 + 1) as usize,
+    };
+    let mut t = utf8_plain(r, before);
+    t.push_str(&core);
+    t.push_str(&utf8_plain(r, slack - before));
+    Some(t)
 }
 
 /// Text of exactly `len` octets with content a lenient peer might "clean up": trailing / leading
